@@ -8,7 +8,7 @@ SYSINFO_C = os.path.join(cjob.REPO, 'src/host/layer23/src/common/sysinfo.c')
 SYSINFO_H = os.path.join(cjob.REPO, 'src/host/layer23/include/osmocom/bb/common/sysinfo.h')
 WINDOW_Q = [0, 1, 2, 3, 511, 512, 1022, 1023]
 META = dict(
-    functions=['sysinfo.c: gsm48_decode_mobile_alloc (verbatim text extracted from the working tree by brace matching, compiled with the FREQ_TYPE_* macros read from sysinfo.h)'],
+    functions=['sysinfo.c: gsm48_decode_sysinfo4 (verbatim text, real sysinfo.h/gsm_04_08.h; other IE decoders stubbed) as caller of the decoder', 'sysinfo.c: gsm48_decode_mobile_alloc (verbatim text extracted from the working tree by brace matching, compiled with the FREQ_TYPE_* macros read from sysinfo.h)'],
     bounds=dict(quick='bitmap length len = 0..9, si4 in {0,1}; all 8*len bitmap bits symbolic (one variable per bit); cell allocation = symbolic membership of each ARFCN of the window %s (other ARFCNs absent), other mask bits of those entries symbolic; loops fully unrolled (1024 + 1024 + 64 iterations)' % WINDOW_Q,
                 thorough='as quick plus a 72-ARFCN window (the 8 above with symbolic membership + 64 consecutive ARFCNs that are always members) so that |CA| is 64..72 and the 64-entry output bound is exercised with all 64 bitmap bits symbolic'),
     stubs=['LOGP -> empty', 'struct gsm_sysinfo_freq reduced to its mask octet (sizeof read from the compiler)', 'VLA via llvm.stacksave/alloca with the concrete size of each run'],
@@ -28,6 +28,8 @@ def jobs(tier, seed):
         for L in (1, 8):
             for si4 in (0, 1):
                 out.append(('big.len=%d.si4=%d' % (L, si4), 'c_decode', dict(length=L, si4=si4, window=sorted(big), fixed=sorted(big))))
+    for L in (0, 1, 2):
+        out.append(('si4-call-site.len=%d' % L, 'c_si4', dict(length=L)))
     out.append(('validation', 'c_validate', dict(seed=seed)))
     return out
 
@@ -50,6 +52,105 @@ def extract():
     macros = '\n'.join(re.findall(r'^#define\s+FREQ_TYPE_\w+\s+\S+', hdr, re.M))
     pre = '#include <stdint.h>\n#include <errno.h>\n#define LOGP(...) do {} while (0)\n' + macros + '\nstruct gsm_sysinfo_freq { uint8_t mask; };\n'
     return pre + body + '\n'
+
+
+def _extract_fn(src, head):
+    i = src.index(head); k = src.index('{', i); depth = 0
+    for p in range(k, len(src)):
+        if src[p] == '{': depth += 1
+        elif src[p] == '}':
+            depth -= 1
+            if depth == 0: return src[i:p + 1]
+
+
+SI4_INCS = [os.path.join(cjob.SHIM, 'host'), os.path.join(cjob.REPO, 'src/host/layer23/include'), os.path.join(cjob.LIBOSMO, 'include'), os.path.join(cjob.SHIM, 'cfg/a/b')]
+SI4_PRE = """#include <stdint.h>
+#include <stdbool.h>
+#include <string.h>
+#include <errno.h>
+#include <osmocom/core/utils.h>
+#include <osmocom/gsm/protocol/gsm_04_08.h>
+#include <osmocom/bb/common/sysinfo.h>
+#define LOGP(...) do {} while (0)
+/* the other information elements of SI4 are not the subject: their decoders are empty here */
+void gsm48_decode_lai2(const struct gsm48_loc_area_id *lai, struct osmo_location_area_id *decoded) { }
+static int gsm48_decode_cell_sel_param(struct gsm48_sysinfo *s, const struct gsm48_cell_sel_par *cs) { return 0; }
+static int gsm48_decode_rach_ctl_param(struct gsm48_sysinfo *s, const struct gsm48_rach_control *rc) { return 0; }
+int gsm48_decode_chan_h0(const struct gsm48_chan_desc *cd, uint8_t *tsc, uint16_t *arfcn) { return 0; }
+int gsm48_decode_chan_h1(const struct gsm48_chan_desc *cd, uint8_t *tsc, uint8_t *maio, uint8_t *hsn) { return 0; }
+static int gsm48_decode_si4_rest(struct gsm48_sysinfo *s, const uint8_t *si, uint8_t len) { return 0; }
+"""
+
+
+def si4_src():
+    """gsm48_decode_mobile_alloc() and gsm48_decode_sysinfo4() verbatim from the working tree, real headers, other IE decoders stubbed"""
+    src = open(SYSINFO_C).read()
+    return SI4_PRE + _extract_fn(src, 'int gsm48_decode_mobile_alloc(') + '\n' + _extract_fn(src, 'int gsm48_decode_sysinfo4(') + '\n'
+
+
+SI4_F = ['sizeof(struct gsm48_sysinfo)', 'offsetof(struct gsm48_sysinfo, freq)', 'sizeof(((struct gsm48_sysinfo *)0)->freq[0])', 'offsetof(struct gsm48_sysinfo, hopping)',
+         'offsetof(struct gsm48_sysinfo, hopp_len)', 'offsetof(struct gsm48_sysinfo, si1)', 'sizeof(struct gsm48_system_information_type_4)', 'sizeof(((struct gsm48_sysinfo *)0)->si1)',
+         'offsetof(struct gsm48_sysinfo, si4_msg)', 'sizeof(((struct gsm48_sysinfo *)0)->si4_msg)']
+
+
+def c_si4(hid, length, timeout_ms=60000):
+    """call site (SI4 CBCH Mobile Allocation): gsm48_decode_sysinfo4() on a message carrying the IE with `length` bitmap octets leaves
+    hopping[], hopp_len and the frequency flags exactly as a direct gsm48_decode_mobile_alloc() call from the same pre-state does -
+    in particular an empty bitmap empties a list left by an earlier SI4 (pre-state list, length and flags symbolic)"""
+    import tempfile
+    j = cjob.CJob(hid, timeout_ms)
+    if 'si4' not in _MOD:
+        with tempfile.TemporaryDirectory(prefix='vf_c20s_') as td:
+            pth = os.path.join(td, 'si4.c'); open(pth, 'w').write(si4_src())
+            _MOD['si4'] = llsym.parse_module(llsym.compile_ir(pth, SI4_INCS))
+    M = _MOD['si4']
+    o = cjob.offsets(SI4_PRE, SI4_F, SI4_INCS)
+    ssz, foff, fsz, hoff, hloff, si1off, hdr, si1sz, m4off, m4sz = (o[k] for k in SI4_F)
+    window = WINDOW_Q
+    def setup(ex):
+        sobj = ex.new_obj(ssz, 'sysinfo')
+        cells = {}
+        for a in window:
+            cells[foff + a * fsz] = (1, llsym.from_bits([vars_['ca'][a].e, vars_['hp'][a].e] + [z3.IntVal(0)] * 6))
+        for k in range(64): cells[hoff + 2 * k] = (2, vars_['hop'][k])
+        cells[hloff] = (1, vars_['hl'])
+        cells[si1off] = (si1sz, C(1))
+        return sobj, cells
+    ex = Exec(M, max_iter=1100); ex.zeroed = getattr(ex, 'zeroed', set())
+    vars_ = dict(ca={a: j.var(ex, 'ca[%d]' % a, 0, 1) for a in window}, hp={a: j.var(ex, 'hopp_pre[%d]' % a, 0, 1) for a in window},
+                 hop=[j.var(ex, 'hop_pre[%d]' % k, 0, 65535) for k in range(64)], hl=j.var(ex, 'hopp_len_pre', 0, 64))
+    bits = [[j.var(ex, 'ma[%d].bit%d' % (i, k), 0, 1) for k in range(8)] for i in range(length)]
+    mab = [llsym.from_bits([b.e for b in bits[i]]) for i in range(length)]
+    # ---- through the call site
+    sobj, cells = setup(ex)
+    zero = lambda n: {k: (1, C(0)) for k in range(n)}
+    sc = zero(ssz); sc = {k: v for k, v in sc.items() if not any(c <= k < c + w[0] for c, w in cells.items())}; sc.update(cells)
+    msg = ex.new_obj(hdr + 2 + length, 'si4')
+    mc = zero(hdr); mc[hdr] = (1, C(0x72)); mc[hdr + 1] = (1, C(length))
+    for i in range(length): mc[hdr + 2 + i] = (1, mab[i])
+    out1 = ex.run('@gsm48_decode_sysinfo4', [Ptr(sobj, C(0)), Ptr(msg, C(0)), C(hdr + 2 + length)], {sobj: sc, msg: mc})
+    j.witness(ex, [])
+    j.memory_obligations(ex, [])
+    if j.stats.failures: return j.stats
+    j.must_hold(ex, 'call-site:returns-0', [], out1.ret.e == 0)
+    # ---- direct call from the same pre-state
+    ex2 = Exec(M, max_iter=1100); ex2.assumes = ex.assumes
+    freq = ex2.new_obj(1024 * fsz, 'freq'); ma = ex2.new_obj(max(length, 0), 'ma'); hop = ex2.new_obj(128, 'hopping'); hl = ex2.new_obj(1, 'hopp_len')
+    fc = {a * fsz: (1, C(0)) for a in range(1024)}
+    for a in window: fc[a * fsz] = cells[foff + a * fsz]
+    out2 = ex2.run('@gsm48_decode_mobile_alloc', [Ptr(freq, C(0)), Ptr(ma, C(0)), C(length), Ptr(hop, C(0)), Ptr(hl, C(0)), C(1)],
+                   {freq: fc, ma: {i: (1, mab[i]) for i in range(length)}, hop: {2 * k: (2, vars_['hop'][k]) for k in range(64)}, hl: {0: (1, vars_['hl'])}})
+    s1 = out1.mem[sobj]
+    rd = lambda cells_, off, n: ex._read_at(cells_, sobj, off, n, False)
+    j.must_hold(ex, 'hopp_len==direct-decode', [], rd(s1, hloff, 1).e == out2.mem[hl][0][1].e)
+    for k in range(64):
+        j.must_hold(ex, 'hopping[%d]==direct-decode' % k, [], rd(s1, hoff + 2 * k, 2).e == out2.mem[hop][2 * k][1].e)
+    for a in window:
+        j.must_hold(ex, 'freq[%d].mask==direct-decode' % a, [], rd(s1, foff + a * fsz, 1).e == out2.mem[freq][a * fsz][1].e)
+    if length == 0:
+        j.must_hold(ex, 'empty-bitmap=>empty-list', [], rd(s1, hloff, 1).e == 0)
+    j.stats.extra['ir_steps'] = ex.steps + ex2.steps
+    return j.stats
 
 
 _MOD = {}
@@ -213,8 +314,45 @@ def check_native(length, si4, ca_masks, mabytes):
     return bad, 'rc=%d hopp_len=%d hopping=%s, reference %s' % (grc, glen, ghop[:glen], want_list)
 
 
+SI4_DRV = r'''
+#include <stdio.h>
+#include <stdlib.h>
+int main(int argc, char **argv) {
+  /* argv: len hopp_len_pre nca (arfcn mask)* ma* hop_pre*64 */
+  int k = 1; int len = atoi(argv[k++]); int hlp = atoi(argv[k++]); int nca = atoi(argv[k++]);
+  struct gsm48_sysinfo *a = calloc(1, sizeof(*a)), *b = calloc(1, sizeof(*b));
+  for (int i = 0; i < nca; i++) { int f = atoi(argv[k++]); int m = atoi(argv[k++]); a->freq[f].mask = m; }
+  uint8_t *msg = calloc(1, sizeof(struct gsm48_system_information_type_4) + 2 + len);
+  uint8_t *d = msg + sizeof(struct gsm48_system_information_type_4); d[0] = 0x72; d[1] = len;
+  for (int i = 0; i < len; i++) d[2 + i] = atoi(argv[k++]);
+  for (int i = 0; i < 64; i++) a->hopping[i] = atoi(argv[k++]);
+  a->hopp_len = hlp; a->si1 = 1;
+  memcpy(b, a, sizeof(*a));
+  int rc = gsm48_decode_sysinfo4(a, (struct gsm48_system_information_type_4 *)msg, sizeof(struct gsm48_system_information_type_4) + 2 + len);
+  gsm48_decode_mobile_alloc(b->freq, d + 2, len, b->hopping, &b->hopp_len, 1);
+  int same = a->hopp_len == b->hopp_len && !memcmp(a->hopping, b->hopping, sizeof(a->hopping)) && !memcmp(a->freq, b->freq, sizeof(a->freq));
+  printf("rc %d hopp_len %d direct %d same %d\n", rc, a->hopp_len, b->hopp_len, same);
+  return 0;
+}
+'''
+
+
+def replay_si4(body):
+    sh = body['shape']; i = body['inputs']; L = sh['length']
+    ca = [(a, i.get('ca[%d]' % a, 0) + 2 * i.get('hopp_pre[%d]' % a, 0)) for a in WINDOW_Q]
+    ca = [(a, m) for a, m in ca if m]
+    args = [L, i.get('hopp_len_pre', 0), len(ca)] + [x for am in ca for x in am] + [sum(i.get('ma[%d].bit%d' % (k, b), 0) << b for b in range(8)) for k in range(L)] + [i.get('hop_pre[%d]' % k, 0) for k in range(64)]
+    rc, out = cjob.run_native(si4_src() + SI4_DRV, None, SI4_INCS, args=args)
+    if rc is None: return 2, out
+    if rc != 0: return 1, 'REPRODUCED on native build (ASan/UBSan): ' + out[-600:]
+    m = re.search(r'rc (-?\d+) hopp_len (\d+) direct (\d+) same (\d+)', out)
+    bad = int(m.group(1)) != 0 or int(m.group(4)) != 1 or (L == 0 and int(m.group(2)) != 0)
+    return (1, 'REPRODUCED on native build: SI4 with a %d-octet Mobile Allocation after a list of %d entries: hopp_len %s, direct decode %s' % (L, i.get('hopp_len_pre', 0), m.group(2), m.group(3))) if bad else (0, 'native agrees: ' + out.strip())
+
+
 def replay(body):
     sh = body['shape']; i = body['inputs']
+    if body.get('func') == 'c_si4': return replay_si4(body)
     if 'length' not in sh: return 0, 'validation job has no symbolic replay'
     ca = {}
     for a in sh['window']:
